@@ -7,8 +7,8 @@ import vlib
 from streams import Scn
 
 # (MaxTx, MaxCalls, AutoDestroy, CbFail)
-QUICK = [(2, 14, False, ()), (2, 14, True, ()), (2, 12, False, ("request_headers", "response_line", "request_body_data", "response_complete", "transaction_complete"))]
-THOROUGH = QUICK + [(2, 17, False, ()), (3, 15, True, ()), (2, 14, True, ("request_line", "response_headers", "response_body_data", "request_complete")),
+QUICK = [(2, 12, False, ()), (2, 12, True, ()), (2, 11, False, ("request_headers", "response_line", "request_body_data", "response_complete", "transaction_complete"))]
+THOROUGH = QUICK + [(2, 14, False, ()), (2, 14, True, ()), (2, 17, False, ()), (3, 15, True, ()), (2, 14, True, ("request_line", "response_headers", "response_body_data", "request_complete")),
                     (2, 14, False, ("request_start", "request_headers", "response_start", "response_body_data", "transaction_complete"))]
 
 
